@@ -69,9 +69,6 @@ import (
 
 	"verifharness/hx"
 
-	// the root package registers the native runtime (AST/lexer/parser classes that macros call
-	// at compile time), exactly as cmd/elk does
-	_ "github.com/elk-language/elk"
 	"github.com/elk-language/elk/bitfield"
 	"github.com/elk-language/elk/lexer"
 	"github.com/elk-language/elk/parser"
@@ -79,6 +76,18 @@ import (
 	"github.com/elk-language/elk/regex"
 	"github.com/elk-language/elk/token"
 	"github.com/elk-language/elk/types/checker"
+
+	// the packages whose init() registers the native runtime (AST/lexer/parser classes that macros
+	// call at compile time): exactly the side-effect imports of the root package `elk`, which cmd/elk
+	// links (the root package itself has no init and is not imported: tools/seedcheck.sh copies hook
+	// files of other packages into the root directory of its scratch worktree)
+	_ "github.com/elk-language/elk/ext/std"
+	_ "github.com/elk-language/elk/lexer/runtime"
+	_ "github.com/elk-language/elk/parser/ast/runtime"
+	_ "github.com/elk-language/elk/parser/runtime"
+	_ "github.com/elk-language/elk/position/diagnostic/runtime"
+	_ "github.com/elk-language/elk/repl/breakpoint"
+	_ "github.com/elk-language/elk/types/runtime"
 )
 
 const modPrefix = "github.com/elk-language/elk/"
@@ -1589,7 +1598,7 @@ func driverMain(o *hx.Opts) {
 	}
 	lexIn := harvestInputs(repo, "lexer/*_test.go")
 	parseIn := harvestInputs(repo, "parser/*_test.go")
-	nParse, nLit := len(parseIn), o.N*4
+	nParse, nLit := len(parseIn), o.N/12
 	if o.Tier != "thorough" {
 		nParse, nLit = o.N/12, o.N/8
 	}
